@@ -213,7 +213,9 @@ def fn_join(ctx, lib, nm, b):
         r = co.of_local(0)
         elem_str = view("string", ("param", 2))
         if ms(r, Call("std::option::Option::<T>::map", Each(elem_str), ANY)) or ms(r, elem_str) or \
-                (r and all(m(strip_through(t), elem_str) or m(t, Agg("std::option::Option::Some", Each(elem_str))) for t in r)):
+                (r and all(m(strip_through(t), elem_str) or m(t, Agg("std::option::Option::Some", Each(elem_str))) or
+                           m(t, Agg("std::result::Result::Ok", Each(elem_str))) or (t[0] == "agg" and t[1] == "std::result::Result::Err") for t in r)
+                 and any(not (t[0] == "agg" and t[1] == "std::result::Result::Err") for t in r)):
             clo_ok = True
     C(ctx, nm, "value", ok and clo_ok, "String(elements of args[1], each as its own string, in order, joined with args[0])", b)
 
